@@ -65,19 +65,33 @@ MANIFEST = dict(
          'c13_property: all parts in one statement under the single hypothesis c13_hyps (a boolean on the fourteen generated objects, '
          'discharged for today\'s source on every run); c13_generated_machine_step / _history: the state machine assembled from the generated '
          'objects (write from the placement table, write_dirfile / reopen as the translated programs) answers as the hand-written machine '
-         'whenever it answers, so the history theorem holds for it; the machine correspondence runs plain histories through it.',
+         'whenever it answers, so the history theorem holds for it; the machine correspondence runs plain histories through it. Round 5: '
+         'FileInfo.write is also executed in its rejection scenarios (read-only archive / index out of range / both, for every combination of '
+         'the deciding facts): which validation raised and which stores had been executed by then is a generated rejection table; '
+         'write_guarded_t runs the method, validations included, from the placement and rejection tables (a rejected call keeps exactly the '
+         'stores the table lists), and for every table accepted by rej_table_ok (every validation that can reject raises before the first '
+         'store, the mode before the index, a singular VPK ignores the index) it is the OWrite case of the state machine on all inputs '
+         '(c13_guarded_write_is_model, c13_write_step_is_generated_tables, c13_rejected_write_stores_nothing); the table with the index '
+         'validated after the checksum is stored is refuted for every checksum function, archive, entry and data (the entry keeps the new '
+         'checksum on the old bytes, verify() is false, a retry with a valid index stores nothing: c13_late_index_check_refuted). The split '
+         'statement may be os.path.splitext (SplitExt, meaning = posixpath.splitext), which is not accepted and refuted by the dot-file witness '
+         '(c13_name_forms_splitext_refuted). filenames / fileinfos executed with their extension / folder arguments given or defaulted give '
+         'walk descriptions whose meaning list_walk is, for dicts without duplicate keys, exactly the entries of the default walk with that '
+         'extension whose folder name starts with the argument, in order (c13_listing_with_arguments_is_filter); extract_all is the full walk '
+         'writing each entry under its listed name with the bytes of read() (c13_extract_all_writes_every_file). c13_property_r5 collects the '
+         'hypotheses of c13_property and these three generated objects in one boolean c13_hyps_r5.',
     note='The model SM/Vpk.v (step/run), the codec Fmt/VpkDir.v/VpkDirV2.v, Fmt/VpkName.v and the string primitives of Fmt/VpkArchName.v are '
          'hand-written and tied to srctools.vpk by differential runs on every run (not by proof): histories on real temp directories compared '
          'byte-exactly, decode of written/damaged/version-2 files, the archive files really opened by the three get_arch_filename sites, name '
          'forms, NUL-terminated streams, new_file/del sequences on the nested dicts. Trusted: Coq kernel + vm_compute (incl. Uint63 for the test '
-         'CRC-32), translate/c13_vpk.py, c13_archname.py, c13_nullstr.py, c13_nested.py, c13_api.py, c13_place.py (symbolic executors), '
+         'CRC-32), translate/c13_vpk.py, c13_archname.py, c13_nullstr.py, c13_nested.py, c13_api.py, c13_place.py, c13_names.py, c13_dirprog.py (symbolic executors), '
          'zlib.crc32 (a Section variable in the theorems; its chaining crc32(b, crc32(a)) = crc32(a+b) is assumed), posixpath.normpath (a '
          'parameter of the name theorems), OS append/seek semantics (archives modelled as append-only byte lists; the "ab" open mode and '
          'seek(0, SEEK_END) are a translated site). Premises that are real limits of the code: a write whose CRC-32 equals the stored one is '
-         'skipped (collision premise); fields >= 4 GiB make write_dirfile raise. Only searched (not modelled): add_folder, extract_all, the '
-         'non-default arguments of filenames/fileinfos/folders, FileInfo.size, the root= argument, script_write. Outside: writing version 2, '
-         'VPKFileSystem, stale FileInfo handles, other processes, archive files present before the history, a load_dirfile() on the same object '
-         'that fails half-way. File names whose last component ends in "." are listed without the dot (known finding name-trailing-dot).',
+         'skipped (collision premise); fields >= 4 GiB make write_dirfile raise. Only searched (not modelled): add_folder, the disk side of '
+         'extract_all (directories created, paths joined), folders(ext=), FileInfo.size, the root= argument, script_write. Outside: writing '
+         'version 2, VPKFileSystem, stale FileInfo handles, other processes, archive files present before the history, a load_dirfile() on the '
+         'same object that fails half-way (it leaves the entries read so far and an empty footer_data; the model gives None). File names whose last component ends in "." are listed without the dot (known finding name-trailing-dot).',
 )
 
 IMPORTS = ['Coq.Lists.List', 'Coq.NArith.NArith', 'SV.Fmt.VpkDir', 'SV.SM.Vpk', 'SV.Fmt.VpkArchName', 'SV.SM.VpkCorr', 'SV.Gen.VpkPlace_gen',
@@ -1035,7 +1049,7 @@ def c_dg(d) -> str:
 def corr_machine(ck: Ck) -> None:
     """SM/Vpk.v run on the same histories as the implementation: per-op code and summary, final per-file digests,
     byte-exact directory file and archives (length + CRC32)."""
-    n_small = bud(ck, 100, 600, 2500)
+    n_small = bud(ck, 80, 600, 2500)
     n_big = bud(ck, 2, 8, 40)
     # quick tier: every tree-string position at 256 and 1000 characters; escalated / thorough: also 255 and 257
     cases = [c for c in CORPUS] + (list(LONG_CORPUS) if ck.thorough or ck.tie_broken else LONG_CORPUS[1::2])
@@ -1579,7 +1593,8 @@ def run(ck: Ck) -> None:
                'the file each of the three get_arch_filename sites really opens; non-trivial = a directory VPK. NUL-terminated streams: '
                'sections of strings incl. lengths around 255/256 and damaged streams. nested dicts: 1..8 files over 3 extensions x 4 folders x 3 '
                'stems then 1..6 deletes; sequences of 2..14 new_file/del from an empty archive with 4 membership probes. folders: add_folder over 3 '
-               'directory trees x 5 prefixes, extract_all; add_file/new_file with root= (6 cases), script_write on the 3 trees.')
+               'directory trees x 5 prefixes, extract_all; add_file/new_file with root= (6 cases), script_write on the 3 trees. Rejected calls (read-only '
+               'archive, index out of range, existing / missing / unrepresentable name) are part of the histories: the caller carries on after the error.')
     ck.trusted.append('hand-written models Fmt/VpkDir.v, Fmt/VpkDirV2.v, SM/Vpk.v, Fmt/VpkName.v, string primitives of Fmt/VpkArchName.v (tied by '
                       'differential correspondence on every run); zlib.crc32 incl. its chaining property; posixpath.normpath; '
                       'translate/c13_archname.py, c13_nullstr.py, c13_nested.py, c13_api.py, c13_names.py, c13_dirprog.py; hand-written SM/VpkApi.v, SM/VpkNested.v, '
@@ -1590,6 +1605,7 @@ def run(ck: Ck) -> None:
         'fresh directory: no numbered archive files exist before the history starts; one process at a time; numbered archives are append-only files (open mode "ab", offset = seek(0, SEEK_END): translated site archive_appended_at_end_and_read_at_offset)',
         'the state machine SM/Vpk.v is the implementation: tied by correspondence on sampled histories and by the translated sites, not by proof',
     ]
+    _T0 = __import__('time').time()
     ok_t = ck.translate('VpkPlace_gen', c13_vpk.translate)
     ok_t = ck.translate('VpkArchName_gen', c13_archname.translate) and ok_t
     ok_t = ck.translate('VpkNullStr_gen', c13_nullstr.translate) and ok_t
@@ -1598,8 +1614,12 @@ def run(ck: Ck) -> None:
     ok_t = ck.translate('VpkNames_gen', c13_names.translate) and ok_t
     ok_t = ck.translate('VpkDirProg_gen', c13_dirprog.translate) and ok_t
     built = ok_t and ck.build(['Props/C13.vo', 'SM/VpkCorr.vo', 'Gen/VpkPlace_gen.vo', 'Gen/VpkArchName_gen.vo', 'Gen/VpkNullStr_gen.vo', 'Gen/VpkNested_gen.vo', 'Gen/VpkApi_gen.vo', 'Gen/VpkNames_gen.vo', 'Gen/VpkDirProg_gen.vo'])
+    if os.environ.get('C13_TIMING'):
+        print(f'  [timing] translate+build: {__import__("time").time() - _T0:.1f}s'); _T0 = __import__('time').time()
     if built:
         ck.theorems('Props/C13.v')
+        if os.environ.get('C13_TIMING'):
+            print(f'  [timing] theorems: {__import__("time").time() - _T0:.1f}s'); _T0 = __import__('time').time()
         ck.instance_obligations(IMPORTS + ['SV.Fmt.VpkNameSplit', 'SV.SM.VpkProperty', 'SV.Props.C13'], {
             'format_constants_in_range': 'dcfg_ok g_dcfg',
             'reader_and_writer_use_the_same_dir_sentinel': 'N.eqb g_dir_index_read g_dir_index_write',
@@ -1708,6 +1728,8 @@ def run(ck: Ck) -> None:
         }, name='vpkinst')
         import time as _t
         t0 = _t.time()
+        if os.environ.get('C13_TIMING'):
+            print(f'  [timing] instance obligations: {t0 - _T0:.1f}s')
         for fn in (corr_archnames, corr_nullstr, corr_nested, corr_machine, corr_decode, corr_names):
             staged(ck, fn)
             if os.environ.get('C13_TIMING'):
